@@ -6,6 +6,9 @@ package main
 //
 //	leaves <n> <tag>        leaf[i] = Hash(tag + "/" + i)  for i < n          -> ok
 //	dup <i> <j>             leaf[i] = leaf[j]  (before compute)               -> ok
+//	lf <hex|->              append one leaf whose hash STRING is the given bytes (any length, any characters except
+//	                        space, comma and control characters; "-" = the empty string)   -> ok
+//	offerraw <i> <hex|->    the given string offered with the path of index i -> true | false | split
 //	compute                 ComputeTree(leaves)                               -> ok <size> <root> <digest of GetTree()>
 //	tree                    GetTree() in full (small trees only)              -> ok h0,h1,...
 //	pathidx <i>             GetPathByIndex(i), verified for leaf i            -> ok <leafIndex> <nodes|-> <VerifyPath> <VerifyMerklePath>
@@ -56,7 +59,7 @@ type c19Hashable string
 
 func (h c19Hashable) GetHash() string { return string(h) }
 
-func (h c19Hashable) GetHashBytes() []byte { return unhx(string(h)) }
+func (h c19Hashable) GetHashBytes() []byte { return []byte(h) }
 
 func c19Hash(s string) string { return hx(sha3sum([]byte(s))) }
 
@@ -120,6 +123,33 @@ func c19Fold(h string, nodes []string, idx int, root string) bool {
 		idx >>= 1
 	}
 	return h == root
+}
+
+// c19Abbrev: a long hash string shortened in the middle (both ends matter for near-duplicates)
+func c19Abbrev(s string) string {
+	if len(s) <= 20 {
+		return s
+	}
+	return fmt.Sprintf("%s..%s(%d)", s[:8], s[len(s)-8:], len(s))
+}
+
+func c19LenBucket(l int) string {
+	switch {
+	case l == 0:
+		return "0"
+	case l == 1:
+		return "1"
+	case l < 64:
+		return "2..63"
+	case l <= 66:
+		return strconv.Itoa(l)
+	case l < 128:
+		return "67..127"
+	case l <= 129:
+		return strconv.Itoa(l)
+	default:
+		return ">129"
+	}
 }
 
 func c19Dash(s string) string {
@@ -261,6 +291,10 @@ func runC19(ops []string) CaseResult {
 			bad = len(f) != 3 || atoi(f[1]) < 0 || mt != nil
 		case "dup":
 			bad = mt != nil || len(f) != 3 || atoi(f[1]) < 0 || atoi(f[1]) >= len(leaves) || atoi(f[2]) < 0 || atoi(f[2]) >= len(leaves)
+		case "lf":
+			bad = mt != nil || len(f) != 2
+		case "offerraw":
+			bad = mt == nil || len(f) != 3 || atoi(f[1]) < 0 || atoi(f[1]) >= len(leaves)
 		case "compute":
 			bad = !leavesSet || mt != nil
 		case "zero":
@@ -302,6 +336,13 @@ func runC19(ops []string) CaseResult {
 					leaves[k] = c19Leaf(f[2], k)
 				}
 				leavesSet = true
+				return "ok"
+			case "lf":
+				leaves = append(leaves, string(unhx(f[1])))
+				leavesSet = true
+				if l := len(unhx(f[1])); l != 64 {
+					tags[fmt.Sprintf("leaf-length-%s", c19LenBucket(l))] = true
+				}
 				return "ok"
 			case "zero":
 				mt = &util.MerkleTree{}
@@ -463,19 +504,23 @@ func runC19(ops []string) CaseResult {
 					}
 				}
 				return fmt.Sprintf("ok %d", cnt)
-			case "offer", "offerrand":
+			case "offer", "offerrand", "offerraw":
 				k := atoi(f[1])
 				var h string
-				if f[0] == "offer" {
+				switch f[0] {
+				case "offer":
 					h = leaves[atoi(f[2])]
-				} else {
+				case "offerraw":
+					h = string(unhx(f[2]))
+					tags["offer-near-duplicate"] = true
+				default:
 					h = c19Hash(f[2])
 				}
 				p := mt.GetPathByIndex(k)
 				a, b := verdicts(h, p)
 				want := h == leaves[k]
 				if a != want || b != want {
-					fail(i, "hash %s offered with the path of index %d (n=%d, leaf %s): VerifyPath=%v VerifyMerklePath=%v, want %v", h[:8], k, len(leaves), leaves[k][:8], a, b, want)
+					fail(i, "hash %q offered with the path of index %d (n=%d, leaf %q): VerifyPath=%v VerifyMerklePath=%v, want %v", c19Abbrev(h), k, len(leaves), c19Abbrev(leaves[k]), a, b, want)
 				}
 				if want {
 					tags["offer-equal-hash"] = true
@@ -573,6 +618,12 @@ func c19Case(r *rand.Rand, n int, tag string, dups int, tier string) []string {
 			ops = append(ops, fmt.Sprintf("dup %d %d", i, j))
 		}
 	}
+	return c19Body(r, ops, nil, n, tag, tier)
+}
+
+// c19Body: everything done with a tree once the leaf ops (head) are given; extra ops go right after the first checks
+func c19Body(r *rand.Rand, head, extra []string, n int, tag string, tier string) []string {
+	ops := append([]string(nil), head...)
 	ops = append(ops, "compute")
 	if n <= 12 {
 		ops = append(ops, "tree")
@@ -585,6 +636,7 @@ func c19Case(r *rand.Rand, n int, tag string, dups int, tier string) []string {
 	if n <= verifyAllMax {
 		ops = append(ops, "verifyall")
 	}
+	ops = append(ops, extra...)
 	// indices looked at one by one: all of them for small trees, else the ends, the level-boundary ones and a sample
 	var idxs []int
 	if n <= 40 {
@@ -676,6 +728,124 @@ func c19Case(r *rand.Rand, n int, tag string, dups int, tier string) []string {
 	return ops
 }
 
+func c19Tok(s string) string {
+	if s == "" {
+		return "-"
+	}
+	return hx([]byte(s))
+}
+
+var c19Shapes = []string{"len0", "len1", "len63", "len64", "len65", "0x", "len128", "len129", "len200", "mixed", "upper", "nonhex", "neardup-last", "neardup-first", "neardup-0x"}
+
+// c19ShapedLeaf: a leaf hash STRING of the given shape (Hashable.GetHash may return any string)
+func c19ShapedLeaf(r *rand.Rand, shape string, i int, tag string) string {
+	h := c19Hash(tag + "/" + strconv.Itoa(i))
+	long := h + c19Hash(h) + c19Hash(h+"x") + c19Hash(h+"y")
+	switch shape {
+	case "len0":
+		return ""
+	case "len1":
+		return h[:1]
+	case "len63":
+		return h[:63]
+	case "len64":
+		return h
+	case "len65":
+		return long[:65]
+	case "0x":
+		return "0x" + h
+	case "len128":
+		return long[:128]
+	case "len129":
+		return long[:129]
+	case "len200":
+		return long[:200]
+	case "upper":
+		return strings.ToUpper(h)
+	case "nonhex":
+		return []string{"zz-" + h[:20] + "!~", "leaf#" + strconv.Itoa(i) + "/" + h[:5], "x-éè中-" + h[:9] + "-y", "(" + h + ")", "g" + h[1:]}[i%5]
+	default: // mixed
+		all := []string{"len1", "len63", "len64", "len65", "0x", "len128", "len129", "len200", "upper", "nonhex", "len0"}
+		return c19ShapedLeaf(r, all[r.Intn(len(all))], i, tag)
+	}
+}
+
+// c19Flip: the string with its character at position pos replaced by another one
+func c19Flip(s string, pos int) string {
+	if len(s) == 0 {
+		return "f"
+	}
+	b := []byte(s)
+	if b[pos] == 'e' {
+		b[pos] = 'd'
+	} else {
+		b[pos] = 'e'
+	}
+	return string(b)
+}
+
+// c19ShapedCase: a tree whose leaf hash strings are not 64-character hex; near-duplicates (differing only in the last
+// or only in the first character) are put into the tree and offered with every path
+func c19ShapedCase(r *rand.Rand, shape string, n int, tier string) []string {
+	tag := "s" + strconv.Itoa(r.Intn(1000))
+	leaves := make([]string, n)
+	base := shape
+	switch shape {
+	case "neardup-last", "neardup-first":
+		base = []string{"len64", "len65", "len128", "len200", "upper"}[r.Intn(5)]
+	case "neardup-0x":
+		base = "0x"
+	}
+	for i := range leaves {
+		leaves[i] = c19ShapedLeaf(r, base, i, tag)
+	}
+	if strings.HasPrefix(shape, "neardup") && n >= 2 {
+		// neighbours and far-apart positions that differ in one end character only
+		for k := 0; k+1 < n; k += 2 {
+			if shape == "neardup-first" {
+				leaves[k+1] = c19Flip(leaves[k], 0)
+			} else {
+				leaves[k+1] = c19Flip(leaves[k], len(leaves[k])-1)
+			}
+		}
+		if n >= 5 {
+			leaves[n-1] = c19Flip(leaves[0], len(leaves[0])-1)
+			leaves[n-2] = c19Flip(leaves[1], 0)
+		}
+	}
+	var head, extra []string
+	for _, l := range leaves {
+		head = append(head, "lf "+c19Tok(l))
+	}
+	idxs := []int{0, 1, n - 1, n - 2, r.Intn(n), r.Intn(n)}
+	if n <= 12 {
+		idxs = nil
+		for i := 0; i < n; i++ {
+			idxs = append(idxs, i)
+		}
+	}
+	for _, i := range idxs {
+		if i < 0 || i >= n {
+			continue
+		}
+		l := leaves[i]
+		cands := []string{c19Flip(l, 0), l + "0", "0" + l, strings.ToUpper(l), strings.ToLower(l)}
+		if len(l) > 0 {
+			cands = append(cands, c19Flip(l, len(l)-1), l[:len(l)-1], l[1:])
+		}
+		if len(l) > 64 {
+			cands = append(cands, l[:64], l[:64]+c19Flip(l[64:], len(l)-65))
+		}
+		for _, c := range cands {
+			extra = append(extra, fmt.Sprintf("offerraw %d %s", i, c19Tok(c)))
+		}
+		if n <= 48 {
+			extra = append(extra, fmt.Sprintf("offerall %d", i))
+		}
+	}
+	return c19Body(r, head, extra, n, tag, tier)
+}
+
 // c19Size: array size for n leaves (used only to pick indices around the end of the array)
 func c19Size(n int) int {
 	if n == 1 {
@@ -700,6 +870,13 @@ func c19Degenerate() [][]string {
 }
 
 func genC19(r *rand.Rand, tier string, idx int) []string {
+	if idx%4 == 3 {
+		n := 1 + r.Intn(40)
+		if r.Intn(4) == 0 {
+			n = 1 + r.Intn(200)
+		}
+		return c19ShapedCase(r, c19Shapes[r.Intn(len(c19Shapes))], n, tier)
+	}
 	maxN := 300
 	if tier == "thorough" {
 		maxN = 3000
@@ -745,6 +922,12 @@ func exhC19(tier string, emit func([]string)) {
 	// model run is split into carry similar work
 	for _, c := range c19Degenerate() {
 		emit(c)
+	}
+	// leaf hash strings of other shapes than 64 hex characters: every shape with n = 1..9 and a few larger n
+	for si, shape := range c19Shapes {
+		for _, n := range []int{1, 2, 3, 4, 5, 6, 7, 8, 9, 16, 17, 33} {
+			emit(c19ShapedCase(rand.New(rand.NewSource(int64(1000*si+n))), shape, n, tier))
+		}
 	}
 	// (the smallest trees first, so that the first failure reported is a small one)
 	for n := 1; n <= 40; n++ {
